@@ -144,6 +144,13 @@ func (v RtPanicSelfer) CodecEncodeSelf(*codec.Encoder) {
 }
 func (*RtPanicSelfer) CodecDecodeSelf(*codec.Decoder) {}
 
+// omitempty complex fields: a complex with zero real part and non-zero imaginary part is NOT empty
+type OC struct {
+	C complex128 `codec:"c,omitempty"`
+	D complex64  `codec:"d,omitempty"`
+	E int        `codec:"e,omitempty"`
+}
+
 // container types that contain themselves: no finite typeInfo, reported as unsupported (a leaf)
 type RecS []RecS
 type RecM map[string]*RecM
@@ -400,6 +407,15 @@ func (b *built) fill(d *GraphDesc) {
 			wrap(RtPanicM{1}, &RtPanicM{1}, "VBad BMarshalPanic true")
 		case "rtpanicselfer":
 			wrap(RtPanicSelfer{1}, &RtPanicSelfer{1}, "VBad BMarshalPanic true")
+		case "oc128bad":
+			n.L = OC{C: complex(0, 1), E: 1}
+			lt = "VIface (VStruct [VBad BComplex false; VScalar; VScalar])"
+		case "oc64bad":
+			n.L = OC{D: complex(0, 2)}
+			lt = "VIface (VStruct [VScalar; VBad BComplex false; VScalar])"
+		case "ocok":
+			n.L = OC{C: complex(3, 0), E: 2}
+			lt = "VIface (VStruct [VScalar; VScalar; VScalar])"
 		case "recslice":
 			n.L = RecS{RecS{}, RecS{}}
 			lt = "VIface (VBad BUnsupKind true)"
@@ -715,7 +731,7 @@ func errCode(err error) int {
 	return 8
 }
 
-var badLeaves = map[string]int{"rtpanicm": 7, "rtpanicselfer": 7, "recslice": 5, "recmap": 5, "sendchan": 5, "complex": 5, "raw": 5, "oddmbs": 5, "unsafeptr": 5, "failm": 7, "panicm": 7, "failselfer": 7}
+var badLeaves = map[string]int{"oc128bad": 5, "oc64bad": 5, "rtpanicm": 7, "rtpanicselfer": 7, "recslice": 5, "recmap": 5, "sendchan": 5, "complex": 5, "raw": 5, "oddmbs": 5, "unsafeptr": 5, "failm": 7, "panicm": 7, "failselfer": 7}
 
 // ---- generation ----
 
@@ -1064,7 +1080,7 @@ func repaired(d *GraphDesc) *GraphDesc {
 			nd.MI[j] = fixiv(i, nd.MI[j])
 		}
 		switch nd.L {
-		case "func", "recvchan", "complexok", "evenmbs":
+		case "func", "recvchan", "complexok", "evenmbs", "ocok":
 		default:
 			nd.L = ""
 		}
@@ -1255,7 +1271,7 @@ func runCase(id int, c caseCfg, cv *vh.Cases, sum *vh.Summary, stream string) {
 	}
 	b := newBuilt(d)
 	heap1, root1 := b.heapTerm(), b.rootT
-	cj := map[string]interface{}{"desc": descJSON(d), "chk": c.chk, "raw": c.raw, "canonical": c.canon, "seed_index": id, "stream": stream, "struct_to_array": id%3 == 1, "optimum_size": id%5 == 2, "nil_to_zero_len": id%7 == 3}
+	cj := map[string]interface{}{"desc": descJSON(d), "chk": c.chk, "raw": c.raw, "canonical": c.canon, "seed_index": id, "stream": stream, "struct_to_array": id%3 == 1, "optimum_size": id%5 == 2, "nil_to_zero_len": id%7 == 3, "recursive_empty_check": id%2 == 0}
 
 	// independent facts about the graph
 	leafKinds := map[int]bool{}
@@ -1326,9 +1342,13 @@ func runCase(id int, c caseCfg, cv *vh.Cases, sum *vh.Summary, stream string) {
 	var res [3]int
 	for fi, f := range vh.Formats {
 		b.fill(d)
-		h := vh.NewHandle(f, vh.Opts{"CheckCircularRef": c.chk, "Raw": c.raw, "Canonical": c.canon, "StructToArray": id%3 == 1, "OptimumSize": id%5 == 2, "NilCollectionToZeroLength": id%7 == 3})
+		h := vh.NewHandle(f, vh.Opts{"CheckCircularRef": c.chk, "Raw": c.raw, "Canonical": c.canon, "StructToArray": id%3 == 1, "OptimumSize": id%5 == 2, "NilCollectionToZeroLength": id%7 == 3, "RecursiveEmptyCheck": id%2 == 0})
 		var out []byte
 		enc := codec.NewEncoderBytes(&out, h)
+		// the same sequence over an io.Writer: what a failed Encode left in the buffer must not survive Reset
+		var w1, w2 bytes.Buffer
+		encIO := codec.NewEncoder(&w1, h)
+		ioErr1 := safeEncode(encIO, b.root)
 		var r [3]int
 		err1 := safeEncode(enc, b.root)
 		r[0] = errCode(err1)
@@ -1373,6 +1393,21 @@ func runCase(id int, c caseCfg, cv *vh.Cases, sum *vh.Summary, stream string) {
 			if err := codec.NewEncoderBytes(&out3, h).Encode(b.root); err != nil || !bytes.Equal(out2, out3) {
 				sum.FailC(stream, "reset-bytes", "after Reset the output differs from a fresh Encoder's", cj)
 			}
+		}
+		// io.Writer Encoder: same outcome class, and after Reset onto a new writer exactly the bytes of a fresh Encoder
+		if errCode(ioErr1) != r[0] && !loose {
+			cj["io_err1"] = fmt.Sprint(ioErr1)
+			sum.FailC(stream, "io-outcome", "an io.Writer-backed Encoder gives another outcome class than NewEncoderBytes", cj)
+		}
+		encIO.Reset(&w2)
+		if ioErr3 := safeEncode(encIO, b.root); ioErr3 != nil {
+			cj["io_err3"] = fmt.Sprint(ioErr3)
+			sum.FailC(stream, "io-reset", "after Reset an io.Writer-backed Encoder rejects an acyclic value", cj)
+		} else if c.canon && r[2] == 0 && !bytes.Equal(w2.Bytes(), out2) {
+			cj["io_got"], cj["want"] = vh.Hex(w2.Bytes()), vh.Hex(out2)
+			sum.FailC(stream, "io-reset-bytes", "after a failed or successful Encode and Reset onto a new io.Writer the output differs from a fresh Encoder's", cj)
+			delete(cj, "io_got")
+			delete(cj, "want")
 		}
 		if fi == 0 {
 			res = r
@@ -1470,7 +1505,7 @@ func main() {
 	}
 	// leaves table: every kind x {acyclic dag, cyclic} x {direct, behind pointer}
 	lr := r.Fork()
-	leaves := []string{"func", "sendchan", "recvchan", "complex", "complexok", "raw", "oddmbs", "evenmbs", "failm", "panicm", "failselfer", "unsafeptr", "rtpanicm", "rtpanicselfer", "recslice", "recmap"}
+	leaves := []string{"func", "sendchan", "recvchan", "complex", "complexok", "raw", "oddmbs", "evenmbs", "failm", "panicm", "failselfer", "unsafeptr", "rtpanicm", "rtpanicselfer", "recslice", "recmap", "oc128bad", "oc64bad", "ocok"}
 	for rep := 0; rep < 2; rep++ {
 		for _, lf := range leaves {
 			for _, lp := range []bool{false, true} {
